@@ -266,6 +266,32 @@ def r4(ctx):
                 continue
             dom = [g for g in ctx.guards_at(bd, b.idx) if g.kind == "is" and g.enum and side(g.enum) not in (None, side(rv["adt"]))]
             if not dom:
+                # the struct is built once behind the match from a tuple each arm fills (`let (a, b) = match v {..}; S { a, b }`):
+                # the same obligation, per arm, on the tuple component that flows into the namesake field
+                e = sym.rvalue_expr(rv)
+                for fname, fe in e[3]:
+                    if not (fe[0] == "field" and fe[1][0] == "var" and fe[2].isdigit()):
+                        continue
+                    k = int(fe[2])
+                    nm_ = fe[1][1]
+                    locs_ = [int(nm_[1:])] if nm_.startswith("_") and nm_[1:].isdigit() else bd.local_by_name(nm_)
+                    for l_ in locs_:
+                        for blk_, si_ in bd.defs.get(l_, []):
+                            if si_ == "term" or blk_ not in bd.live_blocks():
+                                continue
+                            de = sym.def_expr(blk_, si_)
+                            if de[0] != "tuple" or k >= len(de[1]):
+                                continue
+                            dom_ = [g for g in ctx.guards_at(bd, blk_) if g.kind == "is" and g.enum and side(g.enum) not in (None, side(rv["adt"]))]
+                            if not dom_:
+                                continue
+                            g = min(dom_, key=lambda g: len(bd.region_of_edge(g.edge)))
+                            vf = _variant_fields(ctx, g.enum, g.name)
+                            if not vf or fname not in [n_ for n_, _ in vf if not n_.isdigit()]:
+                                continue
+                            nb += 1
+                            src = ("field", ("variant", g.a, g.name), fname)
+                            ctx.check(mentions(de[1][k], lambda x: x == src), "payload-field@%s:%s::%s.%s" % (short(bd.path), g.enum.split("::")[-1], g.name, fname), "%s.%s <- %s" % (rv["adt"].split("::")[-1], fname, expr_str(de[1][k])[:60]), bd.where(blk_), bad_detail="%s::%s carries a field `%s` and %s has a field of that name, but it is filled with `%s`: the value is lost at the boundary" % (g.enum.split("::")[-1], g.name, fname, rv["adt"].split("::")[-1], expr_str(de[1][k])[:60]))
                 continue
             g = min(dom, key=lambda g: len(bd.region_of_edge(g.edge)))
             vf = _variant_fields(ctx, g.enum, g.name)
